@@ -113,6 +113,29 @@ func main() {
 			},
 		}
 	}
+	// RWMutex: a recursive read lock deadlocks when a writer arrives between the two RLock calls
+	rw := &vx.Scenario{
+		Name: "rwmutex recursive read lock",
+		Body: func() interface{} {
+			var mu vsched.RWMutex
+			done := false
+			vsched.Go("writer", func() { mu.Lock(); mu.Unlock(); done = true })
+			mu.RLock()
+			mu.RLock()
+			mu.RUnlock()
+			mu.RUnlock()
+			vsched.WaitUntil("writer", func() bool { return done })
+			return "ok"
+		},
+		Check: func(res *vsched.Result, obs interface{}) (string, string) { return "", "" },
+	}
+	{
+		st := vx.Explore(rw, vx.Config{Bound: 2})
+		fmt.Printf("%s executions=%d verdicts=%v engineErr=%q (expected: some deadlocks)\n", rw.Name, st.Executions, st.Verdicts, st.EngineErr)
+		if st.Verdicts["deadlock"] == 0 || st.Verdicts["ok"] == 0 {
+			fmt.Println("FAIL rwmutex writer preference not modelled")
+		}
+	}
 	for _, signal := range []bool{true, false} {
 		st := vx.Explore(prim(signal), vx.Config{Bound: 2})
 		fmt.Printf("%s executions=%d verdicts=%v engineErr=%q failures=%d\n", prim(signal).Name, st.Executions, st.Verdicts, st.EngineErr, len(st.Failures))
